@@ -103,6 +103,28 @@ def run(ctx):
             meta.append((P, means.tolist(), theta, t + 1, sorted(x + 1 for x in read_at if x <= t)))
         if directed:
             rng = rng_saved
+    # one run on the REAL dataset-backed problem with more than a thousand designs and negligible noise: every
+    # observation of design i is an observation of design i, and P is the Pareto set of the true values
+    from vopy.algorithms import NaiveElimination
+    from vopy.order import ConeTheta2DOrder
+    for Kbig in ((1300,) if ctx.quick else (1025, 1300, 2100)):
+        Xb = [[k / 4096.0, 0.5] for k in range(Kbig)]
+        Yb = [[((k * 37) % 2203) / 4.0, ((k * 53) % 2207) / 4.0] for k in range(Kbig)]      # pairwise distinct in each objective
+        ab = NaiveElimination(0.1, 0.1, algrun.make_ds(Xb, Yb), ConeTheta2DOrder(90), 1e-14)
+        ab.L = 2
+        seen = []
+        orig_ev = ab.problem.evaluate
+        def evb(x, noisy=True, _o=orig_ev):
+            r = _o(x, noisy); seen.append(np.array(r, dtype=float)); return r
+        ab.problem.evaluate = evb
+        for t in range(2):
+            ab.run_one_step()
+        st["P_checks"] += 1
+        off = [i for r in seen if r.shape == (Kbig, 2) for i in np.nonzero(np.abs(r - np.array(Yb)).max(axis=1) > 1e-3)[0][:3]]
+        Pb = sorted(int(i) for i in ab.P)
+        ref = sorted(int(i) for i in ab.order.get_pareto_set(np.array(Yb)))
+        if off or Pb != ref:
+            viol.append({"signature": "naive-observes-wrong-design", "message": f"NaiveElimination on a dataset of {Kbig} designs (noise variance 1e-14): " + (f"the observation taken for design {off[0]} is not within 1e-3 of its objective vector {Yb[off[0]]}" if off else f"P has {len(Pb)} designs, the Pareto set of the true values has {len(ref)} (first difference {sorted(set(Pb) ^ set(ref))[:3]})"), "replay": {"kind": "big", "K": Kbig}})
     outp = ctx.model(lines)
     for (P, means, theta, rnd, reads), o in zip(meta, outp):
         ref = common.dec(o)
